@@ -423,6 +423,102 @@ pub fn rel_random_case(c: &RelRandom, obs: &mut Obs) -> PResult {
     }
 }
 
+/// Interval arithmetic on generic floats (mixed magnitudes, non-dyadic bounds): every finite bound of the result is
+/// the correctly rounded image of the bounds that attain it, give or take one ulp outwards — sound for the extremal
+/// members and tight. (On small integer boxes every formula that is right in exact arithmetic passes; here the order of
+/// operations matters.)
+#[derive(Clone, Debug, Serialize, Deserialize)]
+pub struct ArithRandom {
+    pub f32: bool,
+    /// add sub (interval-interval), sadd ssub smul sdiv neg (scalar s)
+    pub op: String,
+    pub ka: u8,
+    pub kb: u8,
+    pub a: (X, X),
+    pub b: (X, X),
+    pub s: X,
+}
+pub fn arith_random_case(c: &ArithRandom, obs: &mut Obs) -> PResult {
+    fn go<F: crate::fl::Fl>(c: &ArithRandom, obs: &mut Obs) -> PResult {
+        let f = |x: X| F::from64(x.0);
+        let mk = |k: u8, p: (X, X)| -> Interval<F> {
+            let (lo, hi) = if p.0 .0 <= p.1 .0 { (p.0, p.1) } else { (p.1, p.0) };
+            match k % 3 {
+                0 => Interval::TwoSided(f(lo), f(hi)),
+                1 => Interval::UpperOneSided(f(lo)),
+                _ => Interval::LowerOneSided(f(hi)),
+            }
+        };
+        let (ia, ib) = (mk(c.ka, c.a), mk(c.kb, c.b));
+        let s = f(c.s);
+        let (_, al, ah) = crate::model::bounds(&ia);
+        let (_, bl, bh) = crate::model::bounds(&ib);
+        // expected bounds in exact-then-rounded arithmetic of the element type (one operation each)
+        let r = |v: f64| F::from64(v).to64();
+        let (res, want): (Result<Interval<F>, String>, (f64, f64)) = match c.op.as_str() {
+            "add" => {
+                if c.ka % 3 != 0 && c.kb % 3 != 0 && c.ka % 3 != c.kb % 3 {
+                    return Ok(()); // documented panic (C11)
+                }
+                (guard(|| ia + ib), (r(al + bl), r(ah + bh)))
+            }
+            "sub" => {
+                if c.ka % 3 != 0 && c.kb % 3 != 0 && c.ka % 3 == c.kb % 3 {
+                    return Ok(()); // documented panic (C11)
+                }
+                (guard(|| ia - ib), (r(al - bh), r(ah - bl)))
+            }
+            "sadd" => (guard(|| ia + s), (r(al + s.to64()), r(ah + s.to64()))),
+            "ssub" => (guard(|| ia - s), (r(al - s.to64()), r(ah - s.to64()))),
+            "smul" => {
+                let (x, y) = (r(al * s.to64()), r(ah * s.to64()));
+                if s.to64() == 0.0 {
+                    return Ok(());
+                }
+                (guard(|| ia * s), if s.to64() > 0.0 { (x, y) } else { (y, x) })
+            }
+            "sdiv" => {
+                if s.to64() == 0.0 {
+                    return Ok(());
+                }
+                let (x, y) = (r(al / s.to64()), r(ah / s.to64()));
+                (guard(|| ia / s), if s.to64() > 0.0 { (x, y) } else { (y, x) })
+            }
+            _ => (guard(|| -ia), (-ah, -al)),
+        };
+        obs.eval();
+        let sig = format!("C13/arith_random/{}/{}", c.op, F::NAME);
+        let got = match res {
+            Ok(i) => i,
+            Err(p) => return crate::engine::fail(sig, format!("{ia:?} {} {ib:?} / {s:?} panicked: {p}", c.op)),
+        };
+        let (_, gl, gh) = crate::model::bounds(&got);
+        if want.0.is_nan() || want.1.is_nan() || want.0.is_infinite() && al.is_finite() && bl.is_finite() || want.1.is_infinite() && ah.is_finite() && bh.is_finite() {
+            obs.exclude("arithmetic on generic floats: the exact image overflows or is undefined (inf - inf)");
+            return Ok(());
+        }
+        let ulp = |v: f64| if F::IS32 { (crate::fl::next_up32(v.abs() as f32) as f64 - (v.abs() as f32) as f64).abs() } else { crate::fl::next_up(v.abs()) - v.abs() };
+        for (name, g, w, outward_is_down) in [("lower", gl, want.0, true), ("upper", gh, want.1, false)] {
+            if w.is_infinite() {
+                ensure!(g == w, sig, "{ia:?} {} {ib:?} / {s:?} = {got:?}: the {name} side must be unbounded", c.op);
+                continue;
+            }
+            // sound: not inside the exact-rounded bound; tight: at most one ulp outside it
+            let inside = if outward_is_down { g > w } else { g < w };
+            let far = (g - w).abs() > ulp(w) * 1.0000001;
+            ensure!(!inside && !far, sig, "{ia:?} {} {ib:?} (scalar {s:?}) = {got:?}: the {name} bound {g:e} is not the rounded image {w:e} of the bounds that attain it ({})", c.op, if inside { "unsound: it excludes the image of the extremal members" } else { "not tight" });
+        }
+        obs.class(&format!("arith_random/{}", c.op));
+        obs.nontrivial(&(c.f32, &c.op, c.ka % 3, c.kb % 3, c.a.0 .0.to_bits(), c.a.1 .0.to_bits(), c.b.0 .0.to_bits(), c.b.1 .0.to_bits(), c.s.0.to_bits()));
+        Ok(())
+    }
+    if c.f32 {
+        go::<f32>(c, obs)
+    } else {
+        go::<f64>(c, obs)
+    }
+}
+
 /// unsigned element types: A + B and A - B where every member result is representable (no negation available,
 /// so only the interval-interval operators and + - * / by a non-negative scalar are exercised)
 #[derive(Clone, Debug, Serialize, Deserialize)]
@@ -510,7 +606,7 @@ pub fn unsigned_case(c: &UnsignedCase, obs: &mut Obs) -> PResult {
 
 pub fn run(run: &mut Run) {
     run.technique = "bounded exhaustive enumeration over an integer box and dyadic floats; oracle = exact image of the denoted set (member-wise soundness, attained bounds, kind)".into();
-    run.rule = "all 63 intervals with bounds in [-4,4] x all scalars in [-4,4] for + - * / and negation, all ordered interval pairs for A+B / A-B, in i32, i64 (scaled), f64 (unit 0.5) and f32 (unit 0.25); the representable part of the same over u8 / u32 / usize with bounds 0..6; relative_to over non-negative intervals x strictly positive references on three dyadic grids and at four extreme scales (subnormal, smallest normal, 2^1000, and 2^1021 where the largest bounds exceed MAX/2); relative_to on random non-dyadic f32/f64 bounds with self between 100 % and one ulp away from the reference, each bound compared with the exact rational (x-r)/r within 2 ulp; every case is non-trivial; distinct = (type, op, operands)".into();
+    run.rule = "all 63 intervals with bounds in [-4,4] x all scalars in [-4,4] for + - * / and negation, all ordered interval pairs for A+B / A-B, in i32, i64 (scaled), f64 (unit 0.5) and f32 (unit 0.25); the representable part of the same over u8 / u32 / usize with bounds 0..6; relative_to over non-negative intervals x strictly positive references on three dyadic grids and at four extreme scales (subnormal, smallest normal, 2^1000, and 2^1021 where the largest bounds exceed MAX/2); + - * / and negation on random f32/f64 intervals of mixed magnitude (bounds = rounded image of the attaining bounds, at most one ulp outwards); relative_to on random non-dyadic f32/f64 bounds with self between 100 % and one ulp away from the reference, each bound compared with the exact rational (x-r)/r within 2 ulp; every case is non-trivial; distinct = (type, op, operands)".into();
     let all = all_intervals(-B, B);
     for ty in ["i32", "i64", "f64", "f32"] {
         for op in ["add", "sub", "mul", "div", "neg"] {
@@ -570,6 +666,31 @@ pub fn run(run: &mut Run) {
         }
     }
     run.exhaustive = true;
+    // interval arithmetic on generic floats of mixed magnitude
+    {
+        let n = run.tier.pick(80_000, 4_000_000);
+        let val = |f32_: bool| {
+            let elim = if f32_ { 30i32 } else { 200 };
+            (any::<bool>(), (1u64 << 52)..(1u64 << 53), -elim..=elim, 0u8..8).prop_map(move |(neg, m, e, sp)| {
+                let v = match sp {
+                    0 => 0.0,
+                    1 => (m % 17) as f64 * 0.1,
+                    2 => (m % 9) as f64,
+                    _ => m as f64 / (1u64 << 52) as f64 * crate::fl::pow2(e),
+                };
+                let v = if neg { -v } else { v };
+                X(if f32_ { (v as f32) as f64 } else { v })
+            })
+        };
+        let s = any::<bool>().prop_flat_map(move |f32_| {
+            (Just(f32_), prop::sample::select(vec!["add", "sub", "sadd", "ssub", "smul", "sdiv", "neg"]), 0u8..3, 0u8..3, (val(f32_), val(f32_)), (val(f32_), val(f32_)), val(f32_))
+                .prop_map(|(f32_, op, ka, kb, a, b, s)| ArithRandom { f32: f32_, op: op.to_string(), ka, kb, a, b, s })
+        });
+        run.prop("arith_random", n, s, arith_random_case);
+        for op in ["add", "sub", "smul", "sdiv", "neg"] {
+            run.require_class(&format!("arith_random/{op}"));
+        }
+    }
     // relative_to on generic floats, self from far from to extremely close to the reference
     {
         let n = run.tier.pick(60_000, 3_000_000);
@@ -612,6 +733,7 @@ pub fn replay(sub: &str, v: &Value, obs: &mut Obs) -> Option<PResult> {
         "pair" => pair_case(&de(v), obs),
         "relative_to" => rel_case(&de(v), obs),
         "relative_to_random" => rel_random_case(&de(v), obs),
+        "arith_random" => arith_random_case(&de(v), obs),
         "unsigned" => unsigned_case(&de(v), obs),
         _ => return None,
     })
